@@ -496,6 +496,32 @@ def _imag(a):
     return Sym.of(a).imag
 
 
+def _argmax(a, axis=None, **kw):
+    """index of the first maximal entry as a CONCRETE integer: the comparisons fork the path (numpy returns the first maximum)"""
+    if axis is not None:
+        raise core.StubMiss("argmax(axis) on symbolic data")
+    xs = _flat(a)
+    for i in range(len(xs)):
+        best = True
+        for j in range(len(xs)):
+            if j == i:
+                continue
+            # strictly greater than every earlier entry, at least as large as every later one
+            c = (Sym.of(xs[i]) > xs[j]) if j < i else (Sym.of(xs[i]) >= xs[j])
+            if not bool(c):
+                best = False
+                break
+        if best:
+            return i
+    raise core.Infeasible()
+
+
+def _argmin(a, axis=None, **kw):
+    if axis is not None:
+        raise core.StubMiss("argmin(axis) on symbolic data")
+    return _argmax(_map(lambda x: -Sym.of(x), np.asarray(a, dtype=object)))
+
+
 def _count_nonzero(a, axis=None, **kw):
     tot = 0
     for x in _flat(a):
@@ -648,7 +674,7 @@ OVERRIDES = {
     np.where: _where, np.any: _any, np.all: _all, np.abs: _abs, np.absolute: _abs,
     np.isclose: _isclose, np.allclose: _allclose, np.array_equal: _array_equal,
     np.sqrt: _sqrt, np.log: _log, np.maximum: _maximum, np.minimum: _minimum,
-    np.real: _real, np.imag: _imag, np.count_nonzero: _count_nonzero,
+    np.real: _real, np.imag: _imag, np.count_nonzero: _count_nonzero, np.argmax: _argmax, np.argmin: _argmin,
     np.iscomplexobj: _iscomplexobj, np.isrealobj: _isrealobj,
     np.max: _amax, np.min: _amin, np.amax: _amax, np.amin: _amin,
     np.linalg.norm: _norm, np.linalg.inv: _inv, np.isnan: _isnan,
@@ -784,6 +810,12 @@ class NpProxy(types.ModuleType):
 
     def eye(self, *a, **kw):
         return self._mk(np.eye(*a, **kw))
+
+    def mean(self, a, *args, **kw):
+        if MODE["symbolic"] and (has_sym(a) or _contains_symnd(a)):
+            kw.pop("dtype", None)
+            return _mean(_stack_obj(a) if not isinstance(a, np.ndarray) else a, *args, **kw)
+        return np.mean(a, *args, **kw)
 
     def sum(self, a, *args, **kw):
         # np.sum(list of symbolic scalars, dtype=np.float64): the dtype request would realise the symbols
